@@ -13,7 +13,7 @@ import ast
 from .. import spec
 from ..loader import AnalysisError
 from ..sym import (C, NONE, Interp, State, contains, is_const, iter_events,
-                   kind, subst_fold, term_str, walk_term)
+                   kind, subst_fold, term_str, truth, walk_term)
 from .codec_rules import strip_sites
 
 Q = 'protocol.BasicDBusProtocol.dataReceived'
@@ -209,6 +209,7 @@ def binary_mode(ctx, fi, data, lay):
                                              C(True)}))
     q = fi.qualname
     n_deliver = n_len = 0
+    covered_len = set()
     for trace, cond, st, outcome, in_loop, lev in segments(paths):
         # (a) chunk use
         for t in all_terms(trace, cond):
@@ -296,7 +297,20 @@ def binary_mode(ctx, fi, data, lay):
                 bad = None
                 for h in range(0, 41):
                     for b in (0, 1, 5, 8):
-                        r = subst_fold(T, {ub: C(b), ua: C(h)})
+                        env = {ub: C(b), ua: C(h)}
+                        # a path that tests the lengths (padding by a
+                        # conditional) is taken only for the values its
+                        # condition admits
+                        feas = True
+                        for c_, pol_ in cond:
+                            if contains(c_, lambda x: x in (ub, ua)):
+                                tv = truth(subst_fold(c_, env))
+                                if tv is not None and tv != pol_:
+                                    feas = False
+                        if not feas:
+                            continue
+                        covered_len.add((h, b))
+                        r = subst_fold(T, env)
                         wantv = lay['first_field'] + h + \
                             (-(lay['first_field'] + h)) % 8 + b
                         if r != C(wantv) and bad is None:
@@ -348,6 +362,13 @@ def binary_mode(ctx, fi, data, lay):
                    'the drain re-enters dataReceived once per buffered '
                    'message: a read carrying ~1000 small messages exceeds '
                    'the interpreter recursion limit and the rest is lost')
+    want_cov = {(h, b) for h in range(0, 41) for b in (0, 1, 5, 8)}
+    if covered_len:
+        ctx.ob('C04.D1', q, 'total-length:all-lengths-covered',
+               covered_len == want_cov,
+               'some (field-array length, body length) pairs reach no path '
+               'that computes the message length: %s'
+               % sorted(want_cov - covered_len)[:4])
     if n_deliver == 0:
         raise AnalysisError('dataReceived: no delivering path in binary mode')
     if n_len == 0:
